@@ -9,7 +9,9 @@
    i.e. the block registers hold the request, and the invariant is re-established for the next call, whatever
    history of accepted / rejected / failed calls, self-tests and soft resets preceded (c01_history).
    "Overridden by exactly the values passed to its setters" is C02 (request = setters applied to the cloned block).
-   PARTIAL: the pin-mapping and wake-up builders have no generated theorem yet (DESIGN.md). *)
+   All 12 builder bodies have a generated theorem.  PARTIAL in one respect: the side condition `wfb d` (every shadow byte
+   below 256 — what the u8 fields of the Rust structs guarantee by typing) is a hypothesis of each per-call theorem and is
+   not chained along histories as an invariant inside Coq. *)
 Require Import BMA.lib.Base BMA.lib.Reflect BMA.gen.GenTypes BMA.gen.GenPure BMA.lib.Prog BMA.gen.GenProg BMA.gen.GenMeta
                BMA.lib.Encode BMA.gen.GenApi BMA.gen.GenLens BMA.lib.Run BMA.lib.Driver BMA.proofs.Generic BMA.proofs.Rules BMA.proofs.Coherent
                BMA.proofs.Symex BMA.proofs.BuilderSpec BMA.proofs.Builders BMA.proofs.SymexLink BMA.proofs.BuilderCor
